@@ -83,8 +83,11 @@ pub fn program_body(prog: Program, input: Vec<i64>, src: SrcKind, cfg: JobCfg) -
 
 /// Oracle of a "program" scenario: terminated, every sink published exactly once, with the
 /// reference multiset.
-pub fn program_check(prog: &Program, input: &[i64], sig_prefix: String) -> Check {
+pub fn program_check(prog: &Program, input: &[i64], sig_prefix: String, hosts: usize) -> Check {
     let expected = reference(input, prog);
+    // sinks in program order, then the implicit collect_vec of whatever is left on the stack
+    let mut all_hosts: Vec<bool> = prog.iter().filter(|i| i.is_sink()).map(|i| i.on_all_hosts()).collect();
+    all_hosts.resize(expected.len(), false);
     Arc::new(move |r| {
         match &r.status {
             Status::Done => {}
@@ -114,13 +117,20 @@ pub fn program_check(prog: &Program, input: &[i64], sig_prefix: String) -> Check
         }
         for (i, exp) in expected.iter().enumerate() {
             let (published, rows) = sink_rows(&r.log, SINK_TAGS[i]);
-            if published != 1 {
+            let want = if all_hosts[i] { hosts } else { 1 };
+            if published != want {
                 return Err(Fail::new(
                     format!("{sig_prefix}sink-published-{published}"),
-                    format!("sink {i} published {published} times"),
+                    format!("sink {i} published {published} times, expected {want}"),
                 ));
             }
             let got: Vec<i64> = rows.unwrap().into_iter().map(|r| r[0]).collect();
+            let mut exp_all: Vec<i64> = vec![];
+            for _ in 0..want {
+                exp_all.extend(exp.iter().copied());
+            }
+            exp_all.sort();
+            let exp = &exp_all;
             if &got != exp {
                 return Err(Fail::new(
                     format!("{sig_prefix}wrong-result"),
@@ -173,7 +183,7 @@ pub fn program_scenario(
         name,
         params: env_params(cfg),
         body: program_body(prog.clone(), input.to_vec(), src, cfg.clone()),
-        check: program_check(prog, input, sig_prefix),
+        check: program_check(prog, input, sig_prefix, cfg.layout.hosts()),
         bound,
         orders: orders.to_vec(),
         max_execs: 0,
